@@ -573,7 +573,7 @@ def declaration_precedence(origin, importance):
         return 5
 
 
-def resolve_var(computed, token, parent_style):
+def resolve_var(computed, token, parent_style, seen=()):
     """Return token with resolved CSS variables."""
     if not check_var_function(token):
         return
@@ -582,20 +582,26 @@ def resolve_var(computed, token, parent_style):
         arguments = []
         for i, argument in enumerate(token.arguments):
             if argument.type == 'function':
-                resolved = resolve_var(computed, argument, parent_style)
+                resolved = resolve_var(computed, argument, parent_style, seen)
                 arguments.extend((argument,) if resolved is None else resolved)
             else:
                 arguments.append(argument)
         token = tinycss2.ast.FunctionBlock(
             token.source_line, token.source_column, token.name, arguments)
-        return resolve_var(computed, token, parent_style) or (token,)
+        return resolve_var(computed, token, parent_style, seen) or (token,)
 
     args = parse_function(token)[1]
     variable_name = args.pop(0).value.replace('-', '_')  # first arg is name
     default = args  # next args are default value
+    if variable_name in seen:
+        # Cyclic reference: the custom property is invalid, use the fallback.
+        values = default
+    else:
+        values = computed[variable_name] or default
+    seen = (*seen, variable_name)
     computed_value = []
-    for value in (computed[variable_name] or default):
-        resolved = resolve_var(computed, value, parent_style)
+    for value in values:
+        resolved = resolve_var(computed, value, parent_style, seen)
         computed_value.extend((value,) if resolved is None else resolved)
     return computed_value
 
